@@ -2,7 +2,7 @@
    Z, positive, N, nat stay the extracted inductives; no Extract Constant). *)
 From Coq Require Extraction.
 From Coq Require Import ExtrOcamlBasic.
-From RLBoxV Require Import Machine Conv Conv_proofs Ptr Bulk Layout AppPtr World Calls Calls_proofs Invoke Mem Ops Verify Casts ScopeExit Symbols FloatCmp.
+From RLBoxV Require Import Machine Conv Conv_proofs Ptr Bulk Layout AppPtr AppPtr2 World Calls Calls_proofs Invoke Mem Ops Verify Casts ScopeExit Symbols FloatCmp.
 Extraction Language OCaml.
 Extraction "model.ml"
   Z.add Z.mul Z.sub Z.div_eucl Z.of_nat Z.to_nat Z.eqb Z.leb Z.ltb Z.opp Z.pow Z.modulo
@@ -19,13 +19,13 @@ Extraction "model.ml"
   code_postdec_fixed code_index_nullcheck code_range_guarded
   rl_memset rl_memcpy rl_memcmp verify_range counted_good usp_because copy_or_deny copy_or_grant grant_or_copy deny_or_copy acc_good
   amap_init get_app_pointer_idx get_unused_index remove_app_ptr lookup_index astep arun
-  ostep orun owner_at held live_tokens code_overwrite_releases
+  ostep orun owner_at held live_tokens code_overwrite_releases ostep2 orun2 owner2_at map_at proj proj_op
   world_init wstep wstep_spec wstep_gen wrun cb_owner_at reachable owned_keys code_move_assign_releases
   invoke invoke_spec cv sv
   sx_run sx_step sx_init
   sstep srun sspec symw_init first_times
   fdecode fof_int fcompare ftruth wfcompare wfcompare_negating
-  image sandbox_static_cast sandbox_ptr_cast sandbox_static_cast_mem sandbox_ptr_cast_mem opaque_to_sbx
+  image to_opaque_img from_opaque_img sandbox_static_cast sandbox_ptr_cast sandbox_static_cast_mem sandbox_ptr_cast_mem opaque_to_sbx
   vrun cv_value cv_ptr cv_range cv_string_unique cv_string_std cmda cstrlen apply_muts cv_buffer_address cv_address cv_ptr_cell usp_cell cv_string_std_cell cv_string_unique_cell cv_range_cell cv_string_unique_cell_refetch cv_struct_ptr_cell
   cop cuop wbin wcompound ccompound cincdec wincdec code_postdec_ok common promote
   bytes_le le_val write read encode decode store_int load_int load_cv_ptr load_range range_footprint range_checked
